@@ -88,6 +88,12 @@ func (st *evalState) eval1(V ssa.Value) (int64, bool) {
 	if k, ok := ssax.ConstInt(V); ok {
 		return a.truncT(k, V.Type()), true
 	}
+	if rc := a.rowConstOf(V); rc != nil {
+		if k, ok := a.curRow[rc.idx]; ok && k >= 0 && k < len(rc.vals) {
+			return a.truncT(rc.vals[k], V.Type()), true
+		}
+		return 0, false
+	}
 	switch x := V.(type) {
 	case *ssa.Index, *ssa.Lookup:
 		if a.sameByte(st.s, V) {
